@@ -84,6 +84,8 @@ class ElemEval:
             if idx is not None:
                 if base[0] == 'el':
                     return ('el', base[1] + (idx,))
+                if base[0] == 'pel' and idx >= 0:
+                    return dict(base[2]).get(idx, ('el', base[1] + (idx,)))
                 if base[0] == 'lst' and -len(base[1]) <= idx < len(base[1]):
                     return base[1][idx]
                 if base[0] in ('pose', 'prod'):
@@ -191,6 +193,15 @@ class ElemEval:
                 v = self.ev(st.value, env, depth)
                 if isinstance(t, ast.Name):
                     env[t.id] = v
+                    # a local that holds a fresh copy of (a part of) the argument: element stores into it are followed (see 'pel')
+                    fresh = getattr(self, '_fresh_locals', None)
+                    if fresh is None:
+                        fresh = self._fresh_locals = set()
+                    fresh.discard(t.id)
+                    if v[0] == 'el' and any(isinstance(c_, ast.Call) and (src(c_.func) in ('np.array', 'numpy.array', 'np.copy', 'numpy.copy', 'copy.copy', 'copy.deepcopy')
+                                                                         or (isinstance(c_.func, ast.Attribute) and c_.func.attr in ('copy', 'astype', 'flatten')))
+                                            for c_ in ast.walk(st.value)):
+                        fresh.add(t.id)
                 elif isinstance(t, (ast.Tuple, ast.List)) and all(isinstance(x, ast.Name) for x in t.elts):
                     for i, x in enumerate(t.elts):
                         env[x.id] = v[1][i] if v[0] == 'lst' and len(v[1]) == len(t.elts) else ('unk', src(st.value)[:30])
@@ -211,6 +222,11 @@ class ElemEval:
                             items = list(cur[1])
                             items[k] = v
                             env[b.id] = ('lst', tuple(items))
+                        elif cur is not None and cur[0] in ('el', 'pel') and k is not None and k >= 0 and b.id in getattr(self, '_fresh_locals', ()):
+                            # a copy of the argument with some elements replaced: ('pel', path, ((index, value), ...))
+                            patches = dict(cur[2]) if cur[0] == 'pel' else {}
+                            patches[k] = v
+                            env[b.id] = ('pel', cur[1], tuple(sorted(patches.items())))
                         else:
                             env[b.id] = ('unk', 'stored into in place: ' + src(st)[:30])
                     elif isinstance(b, ast.Attribute) and isinstance(b.value, ast.Name) and b.value.id == 'self' and ('self.' + b.attr) in self.stores:
